@@ -22,11 +22,11 @@ FORBIDDEN = re.compile(r"\b(sorry|admit|native_decide|bv_decide|implemented_by|u
 PROPS = {
     "C01": dict(modules=["PolytuneModel.Thm.C01", "PolytuneModel.Thm.C01batches", "PolytuneModel.Thm.GenArith", "PolytuneModel.Thm.C01tied"], theorems=["PolytuneModel.OnlineMsgs.C01_tied_model_results", "PolytuneModel.OnlineMsgs.walk_state", "PolytuneModel.C01_batches_agree_gen", "PolytuneModel.Gen_chunkSizeIter_eq", "PolytuneModel.C01_batches_agree", "PolytuneModel.C01_batches_cover", "PolytuneModel.C01_honest_correct", "PolytuneModel.step_inv", "PolytuneModel.eval_label"], drive="C01", also=["C01m", "C19m"], cases=dict(quick=60, thorough=600),
                 rule="generated register circuits x inputs x n x p_eval x p_out x tmp_dir x capacity x schedule, plus AND chains on both sides of the 1000-gate batch boundary; non-trivial = has an AND gate or register reuse; distinct by (circuit, p_eval, p_out)"),
-    "C02": dict(modules=["PolytuneModel.Thm.C03", "PolytuneModel.Thm.C02agree", "PolytuneModel.Thm.Sites", "PolytuneModel.Thm.C02eval"], theorems=["PolytuneModel.C02_evaluator_rows", "PolytuneModel.C02_evaluator_values", "PolytuneModel.C03_check_sites_present", "PolytuneModel.C02_agreement", "PolytuneModel.openReg_detect_or_extract", "PolytuneModel.openOutput_sound", "PolytuneModel.C02_cex_missing_output_share", "PolytuneModel.C02_fixed_rejects_missing"], drive="C03", only="C02", cases=dict(quick=1, thorough=1),
+    "C02": dict(modules=["PolytuneModel.Thm.C02beaver", "PolytuneModel.Thm.C03", "PolytuneModel.Thm.C02agree", "PolytuneModel.Thm.Sites", "PolytuneModel.Thm.C02eval"], theorems=["PolytuneModel.C02_beaver_open", "PolytuneModel.C02_cex_beaver_and", "PolytuneModel.C02_beaver_rejects_flipped_d", "PolytuneModel.C02_evaluator_rows", "PolytuneModel.C02_evaluator_values", "PolytuneModel.C03_check_sites_present", "PolytuneModel.C02_agreement", "PolytuneModel.openReg_detect_or_extract", "PolytuneModel.openOutput_sound", "PolytuneModel.C02_cex_missing_output_share", "PolytuneModel.C02_fixed_rejects_missing"], drive="C03", only="C02", cases=dict(quick=1, thorough=1),
                 rule="one forged field of one online message per run (13 fields x adversary role x n in {2,3} x 3 inputs); oracle: an honest Ok is f(x_H, x') for some x'; distinct by (n, phase, field, role)"),
     "C03": dict(modules=["PolytuneModel.Thm.C03broadcast", "PolytuneModel.Thm.C03", "PolytuneModel.Thm.Sites"], theorems=["PolytuneModel.Bcast.C03_broadcast_consistent", "PolytuneModel.Bcast.C03_cex_half_echo", "PolytuneModel.Bcast.C03_full_echo_rejects", "PolytuneModel.C03_check_sites_present", "PolytuneModel.macCheck_detect_or_extract", "PolytuneModel.C03_output_label", "PolytuneModel.openReg_detect_or_extract"], drive="C03", also=["C03m"], only="C03", cases=dict(quick=40, thorough=400),
                 rule="one forged authenticated field per run; oracle: the consumer returns Err; distinct by (n, phase, field, role)"),
-    "C04": dict(modules=["PolytuneModel.Thm.C04mirror", "PolytuneModel.Thm.C04", "PolytuneModel.Thm.C04laand", "PolytuneModel.Thm.Sites", "PolytuneModel.Thm.C04kos"], theorems=["PolytuneModel.Mirror.C04_cex_mirror", "PolytuneModel.Mirror.C04_mirror_rejected", "PolytuneModel.Mirror.C04_accept_forces_own_value", "PolytuneModel.Kos.C04_kos_check_exact", "PolytuneModel.Kos.C04_kos_wrong_t_rejected", "PolytuneModel.Kos.C04_kos_detect_or_extract", "PolytuneModel.C04_check_sites_present", "PolytuneModel.C04_laand_check_value", "PolytuneModel.C04_laand_zero", "PolytuneModel.C04_laand_detect", "PolytuneModel.C04.C04_cex_cm_unchecked", "PolytuneModel.C04.C04_dm_bound", "PolytuneModel.C04.C04_open_is_committed", "PolytuneModel.C04.C04_cex_challenge_predetermined"], drive="C04", also=["C04p", "C04m"], cases=dict(quick=30, thorough=200),
+    "C04": dict(modules=["PolytuneModel.Thm.C02beaver", "PolytuneModel.Thm.C04mirror", "PolytuneModel.Thm.C04", "PolytuneModel.Thm.C04laand", "PolytuneModel.Thm.Sites", "PolytuneModel.Thm.C04kos"], theorems=["PolytuneModel.C02_beaver_open", "PolytuneModel.C02_cex_beaver_and", "PolytuneModel.C02_beaver_rejects_flipped_d", "PolytuneModel.Mirror.C04_cex_mirror", "PolytuneModel.Mirror.C04_mirror_rejected", "PolytuneModel.Mirror.C04_accept_forces_own_value", "PolytuneModel.Kos.C04_kos_check_exact", "PolytuneModel.Kos.C04_kos_wrong_t_rejected", "PolytuneModel.Kos.C04_kos_detect_or_extract", "PolytuneModel.C04_check_sites_present", "PolytuneModel.C04_laand_check_value", "PolytuneModel.C04_laand_zero", "PolytuneModel.C04_laand_detect", "PolytuneModel.C04.C04_cex_cm_unchecked", "PolytuneModel.C04.C04_dm_bound", "PolytuneModel.C04.C04_open_is_committed", "PolytuneModel.C04.C04_cex_challenge_predetermined"], drive="C04", also=["C04p", "C04m"], cases=dict(quick=30, thorough=200),
                 rule="one flipped payload bit per preprocessing message (18 phases x occurrence x recipients x n), commit-before-reveal under seeded schedules, challenge predictor from wire openings vs probes; distinct by (n, phase, occurrence) / schedule"),
     "C05": dict(modules=["PolytuneModel.Thm.C05", "PolytuneModel.Thm.C05msgs"], theorems=["PolytuneModel.OnlineMsgs.C05_out_shares_recipients", "PolytuneModel.OnlineMsgs.C05_lambda_recipients", "PolytuneModel.OnlineMsgs.C05_slots_are_output_regs", "PolytuneModel.C05_non_output_silent", "PolytuneModel.C05_output_party_messages"], drive="C09", also=["C01m"], cases=dict(quick=40, thorough=400),
                 rule="recorded messages per ordered pair vs model pattern; nothing to a non-output party after input processing; distinct by (circuit, p_eval, p_out)"),
